@@ -27,24 +27,30 @@ func VerifC17_ConcurrentSyncs() {
 	method := rt.OneOf(rt.String("method"), "InPlace", "Recreate", "RollingInPlace")
 	rt.Assume(method == "InPlace" || method == "Recreate" || method == "RollingInPlace")
 	val := rt.String("desired-value")
-	parents := []*unstructured.Unstructured{env.Thing("ns", "p1", "puid1"), env.Thing("ns", "p2", "puid2")}
+	// (three workers: the memory-cell race detector exempts what the FIRST goroutine
+	// does to a cell before anybody else touches it - see race.go - so an
+	// unsynchronised shared field shows between the second and the third)
+	parents := []*unstructured.Unstructured{env.Thing("ns", "p1", "puid1"), env.Thing("ns2", "p2", "puid2"), env.Thing("ns3", "p3", "puid3")}
+	// (each in a namespace of its own: the controller's clients are shared by the
+	// workers and re-scoped per request)
+	nss := []string{"ns", "ns2", "ns3"}
 	for _, p := range parents {
 		w.Srv.Put("things", p)
 	}
 	// per parent: a stale owned child (to delete) and an owned child that changes
 	for i, p := range parents {
 		sfx := string(rune('1' + i))
-		old := env.ConfigMap("ns", "old"+sfx, "", "x")
+		old := env.ConfigMap(nss[i], "old"+sfx, "", "x")
 		env.SetLabel(old, "controller-uid", string(p.GetUID()))
 		w.Srv.Put("configmaps", verifAppliedChild(old, p, "uid-old"+sfx))
-		keep := env.ConfigMap("ns", "keep"+sfx, "", "before")
+		keep := env.ConfigMap(nss[i], "keep"+sfx, "", "before")
 		env.SetLabel(keep, "controller-uid", string(p.GetUID()))
 		w.Srv.Put("configmaps", verifAppliedChild(keep, p, "uid-keep"+sfx))
 	}
 	hook := &verifHook{enabled: true, fn: func(req *v1.CompositeHookRequest) (*v1.CompositeHookResponse, error) {
 		sfx := req.Parent.GetName()[1:]
 		return &v1.CompositeHookResponse{
-			Children: []*unstructured.Unstructured{env.ConfigMap("ns", "keep"+sfx, "", val), env.ConfigMap("ns", "new"+sfx, "", val)},
+			Children: []*unstructured.Unstructured{env.ConfigMap(req.Parent.GetNamespace(), "keep"+sfx, "", val), env.ConfigMap(req.Parent.GetNamespace(), "new"+sfx, "", val)},
 			Status:   map[string]interface{}{"phase": "ok"},
 		}, nil
 	}}
@@ -59,20 +65,23 @@ func VerifC17_ConcurrentSyncs() {
 
 	var wg sync.WaitGroup
 	errs := make([]error, len(cached))
+	start := make(chan struct{}) // the workers set off together (matters for the native -race replay)
 	for i := range cached {
 		wg.Add(1)
 		go func(i int) {
 			defer wg.Done()
+			<-start
 			errs[i] = pc.syncParentObject(cached[i])
 		}(i)
 	}
+	close(start)
 	wg.Wait()
 
 	for i := range parents {
 		sfx := string(rune('1' + i))
 		rt.Assert(errs[i] == nil, "concurrent-syncs/sync-error")
-		rt.Assert(w.Srv.Peek("configmaps", "ns", "old"+sfx) == nil, "concurrent-syncs/undesired-child-not-deleted")
-		n := w.Srv.Peek("configmaps", "ns", "new"+sfx)
+		rt.Assert(w.Srv.Peek("configmaps", nss[i], "old"+sfx) == nil, "concurrent-syncs/undesired-child-not-deleted")
+		n := w.Srv.Peek("configmaps", nss[i], "new"+sfx)
 		rt.Assert(n != nil, "concurrent-syncs/new-child-not-created")
 		if n != nil {
 			d, _ := n.Object["data"].(map[string]interface{})
@@ -81,14 +90,14 @@ func VerifC17_ConcurrentSyncs() {
 			rt.Assert(has && cu == "puid"+sfx, "concurrent-syncs/new-child-owned-by-the-wrong-parent")
 		}
 		if method == "InPlace" || (ssa && method != "RollingInPlace") {
-			k := w.Srv.Peek("configmaps", "ns", "keep"+sfx)
+			k := w.Srv.Peek("configmaps", nss[i], "keep"+sfx)
 			rt.Assert(k != nil, "concurrent-syncs/kept-child-missing")
 			if k != nil {
 				d, _ := k.Object["data"].(map[string]interface{})
 				rt.Assert(d["k"] == val, "concurrent-syncs/kept-child-not-updated")
 			}
 		}
-		p := w.Srv.Peek("things", "ns", "p"+sfx)
+		p := w.Srv.Peek("things", nss[i], "p"+sfx)
 		st, _ := p.Object["status"].(map[string]interface{})
 		rt.Assert(st["phase"] == "ok", "concurrent-syncs/status-not-written")
 	}
